@@ -705,6 +705,11 @@ func (e *engine) afterRestart(want ltx.Pos, ref any) {
 			if db != nil {
 				got = db.Pos().String()
 			}
+			if uint64(want.PostApplyChecksum) == emptyChk {
+				// the position of a dropped database (N+1, empty) is what lets a recreation continue the log
+				e.fail("C15", "C15.drop-survives-restart", "dropped-position-lost-by-restart/"+name, map[string]any{"got": got, "want": want.String()})
+				continue
+			}
 			e.fail("C06", "C06.ends-identical-to-primary", "position-after-restart/"+name, map[string]any{"got": got, "want": want.String()})
 			continue
 		}
